@@ -23,6 +23,13 @@ def run_calls(chk, rng, replay, n_quick, n_thorough):
         # a stratum for the rarest path: the boundary-improvement phase of the linearly constrained solver making more than
         # one rotation (subgen.gen_improve)
         cases += [subgen.gen_improve(rng) for _ in range(n)]
+        # the same stratum for the bound-constrained solver (mixed finite / infinite bounds, non-convex models), and strongly
+        # coupled convex models in which the conjugate gradients restart after a bound is reached
+        for _ in range(n // 2):
+            c = subgen.gen_improve(rng)
+            c["kind"] = "tangential"
+            cases.append(c)
+        cases += [subgen.gen_coupled(rng, 6) for _ in range(n // 2)]
     out, reqs = [], []
     crashed = []
     for c in cases:
@@ -112,6 +119,10 @@ def tcg_correspondence(rng, n_gen, nmax=4, whole=False):
     from common import LEAN
     import cobyqa.subsolvers as S
     cases = [c for c in (subgen.gen(rng, "tangential") for _ in range(n_gen)) if c["n"] <= nmax]
+    cases += [subgen.gen_coupled(rng, nmax) for _ in range(max(20, n_gen // 3))]
+    for c in cases:
+        if whole:
+            c["improve_tcg"] = True
 
     def rl(v):
         return " ".join(exact.rs(Fr(float(x))) for x in v)
